@@ -120,6 +120,7 @@ def e2e_case(case: dict, res: Result = None):
     from vlib.simclient import ClientSim
 
     classes = e2e_classes()
+    kept = []
     cs = ClientSim(timecode=case["timecode"], send_msg_timing=False, log_level=logging.CRITICAL + 10)
     try:
         cl = []
@@ -206,6 +207,8 @@ def e2e_case(case: dict, res: Result = None):
                         bad.append(("payload", size, h.num_data_bytes))
                     if bad:
                         raise Violation("e2e/modified", f"message read by client {j} differs from what client {k} sent: {bad}", case)
+                    # the application keeps what it was handed: it must still be unchanged after later reads
+                    kept.append((j, m, bytes(m.header), bytes(m.data), len(kept)))
                 if res is not None and eligible:
                     res.count("e2e-deliveries")
             if res is not None:
@@ -213,6 +216,13 @@ def e2e_case(case: dict, res: Result = None):
                 res.count("e2e-sends")
                 if 0 < nrec < len(cl) and not raised:
                     res.shape("e2e", t, 0 if dm == 0 else 1, nrec, any(x["logger"] for x in case["clients"]), k in [j for j in range(len(cl)) if t in subs[j]])
+        for j, m, hb, db, nth in kept:
+            if bytes(m.header) != hb or bytes(m.data) != db:
+                raise Violation("e2e/message-changed-after-later-read", f"delivery #{nth} returned to client {j} no longer holds the bytes it had "
+                                f"when read_message returned it ({len(kept) - nth - 1} messages were read afterwards): a message handed to "
+                                f"the application shares storage with later ones", case)
+        if res is not None and len(kept) >= 2:
+            res.count("e2e-messages-rechecked-at-end", len(kept))
     finally:
         cs.close()
 
